@@ -2071,6 +2071,12 @@ class RedunBackendDb(RedunBackend):
                     value=data,
                 )
             )
+            # Record File and Task rows and subvalues in the same transaction as their Value
+            # row, so that an interruption cannot leave a Value without its companion rows.
+            self._record_special_redun_values([value], [value_hash], commit=False)
+            subvalues = list(value_interface.iter_subvalues())
+            if subvalues:
+                self._record_subvalues(subvalues, value_hash, commit=False)
             try:
                 session.commit()
             except sa.exc.IntegrityError:
@@ -2085,17 +2091,12 @@ class RedunBackendDb(RedunBackend):
                     # something else went wrong
                     raise
 
-            self._record_special_redun_values([value], [value_hash])
-
-            # Record subvalues.
-            subvalues = list(value_interface.iter_subvalues())
-            if subvalues:
-                self._record_subvalues(subvalues, value_hash)
-
         return value_hash
 
     @use_acquire
-    def _record_special_redun_values(self, values: list[Any], value_hashes: list[str]):
+    def _record_special_redun_values(
+        self, values: list[Any], value_hashes: list[str], commit: bool = True
+    ):
         """
         Record special Values such as Files and Tasks
         """
@@ -2141,10 +2142,12 @@ class RedunBackendDb(RedunBackend):
                     )
                 )
 
-        if new_inserts:
+        if new_inserts and commit:
             self.session.commit()
 
-    def _record_subvalues(self, subvalues: list[Any], parent_value_hash: str):
+    def _record_subvalues(
+        self, subvalues: list[Any], parent_value_hash: str, commit: bool = True
+    ):
         """
         Record subvalues for a parent Value (parent_value_hash).
         """
@@ -2207,10 +2210,10 @@ class RedunBackendDb(RedunBackend):
                     )
                 )
 
-            if new_inserts:
+            # Record File and Task rows in the same transaction as their Value rows.
+            self._record_special_redun_values(subvalues, value_hashes, commit=False)
+            if commit:
                 session.commit()
-
-            self._record_special_redun_values(subvalues, value_hashes)
 
     def _deserialize_value(self, type_name: str, data: bytes) -> tuple[Any, bool]:
         """
